@@ -173,8 +173,29 @@ func c05PayloadOn(c *ctx, sc schemaSpec, schema *jsonapi.Schema, payload string,
 		c05Call(schema, func() (any, error) { return jsonapi.UnmarshalPartialResource(data, schema) }, func(v any) (string, string) {
 			p := v.(*jsonapi.SoftResource)
 			off := ""
-			if typeByName(schema, p.GetType().Name) == nil {
+			st := typeByName(schema, p.GetType().Name)
+			if st == nil {
 				off = "partial resource of a type that is not in the schema"
+			} else {
+				for name, a := range p.Attrs() {
+					sa, ok := st.Attrs[name]
+					if !ok || sa != a {
+						off = "partial resource: attribute " + name + " is not the schema's"
+						continue
+					}
+					if val := p.Get(name); val == nil {
+						if !sa.Nullable {
+							off = "partial resource: attribute " + name + " is nil but not nullable"
+						}
+					} else if reflect.TypeOf(val) != goTypeOf(sa.Type, sa.Nullable) {
+						off = fmt.Sprintf("partial resource: attribute %s holds a %T, schema says %s", name, val, jsonapi.GetAttrTypeString(sa.Type, sa.Nullable))
+					}
+				}
+				for name, r := range p.Rels() {
+					if sr, ok := st.Rels[name]; !ok || sr != r {
+						off = "partial resource: relationship " + name + " is not the schema's"
+					}
+				}
 			}
 			return oPartial(p), off
 		}),
